@@ -320,7 +320,7 @@ def ops_models(impl, lg, lcf, rng, tier):
             for k in range(0, 4 if n == 1 else 3):
                 for links in itertools.combinations(possible, k):
                     yield 'exhaustive', build(types, links)
-    for _ in range(250 if tier == 'quick' else 4000):
+    for _ in range(250 if tier == 'quick' else 2500):
         n = rng.randint(3, 4)
         possible = [(c, l, r) for c in ('Pp', 'Qq') for l in range(n) for r in range(n)]
         types = [rng.choice(['Aa', 'Bb', 'Cc', 'Dd']) for _ in range(n)]
@@ -330,16 +330,15 @@ def ops_models(impl, lg, lcf, rng, tier):
 
 def make_cases(pid, impl, tier, seed):
     rng = random.Random(seed * 15485863 + (1 if pid == 'C01' else 2))
-    n = {'quick': 300, 'thorough': 5000}[tier]
+    n = {'quick': 300, 'thorough': 2000}[tier]
     if pid == 'C09':
-        n = {'quick': 120, 'thorough': 2000}[tier]
-    out = []
+        n = {'quick': 120, 'thorough': 1000}[tier]
     if pid in ('C01', 'C02'):
         L = ops_language()
         lg, lcf = MG.make_lang(impl, L)
         for stream, m in ops_models(impl, lg, lcf, rng, tier):
             if pid == 'C01' or stream == 'dense':
-                out.append({'L': L, 'lg': lg, 'm': m, 'stream': stream})
+                yield {'L': L, 'lg': lg, 'm': m, 'stream': stream}
     if pid == 'C02':
         # names that collide with automatically renamed ones, in every order of three additions
         import itertools
@@ -353,21 +352,20 @@ def make_cases(pid, impl, tier, seed):
                 if rng.random() < 0.5:
                     a.df = rng.choice([0.0, 0.5])
                 m.add_asset(a)
-            out.append({'L': L, 'lg': lg, 'm': m, 'stream': 'names'})
+            yield {'L': L, 'lg': lg, 'm': m, 'stream': 'names'}
     gen = LG.LangGen(rng, reuse_fields=0.2)
     for i in range(n):
         L = gen.gen()
         try:
             lg, lcf = MG.make_lang(impl, L)
         except Exception as e:
-            out.append({'L': L, 'error': repr(e)})
+            yield {'L': L, 'error': repr(e)}
             continue
         m = MG.gen_model(impl, rng, L, lg, lcf, tricky_names=(0.25 if pid == 'C02' else 0.0))
         if pid in ('C01', 'C02', 'C09') and (i % 3 == 0 or pid == 'C09'):
-            out.append({'L': L, 'lg': lg, 'm': m, 'stream': 'regenerated', 'regen': make_regen(impl, random.Random(rng.random()), lcf)})
+            yield {'L': L, 'lg': lg, 'm': m, 'stream': 'regenerated', 'regen': make_regen(impl, random.Random(rng.random()), lcf)}
         else:
-            out.append({'L': L, 'lg': lg, 'm': m, 'stream': 'random'})
-    return out
+            yield {'L': L, 'lg': lg, 'm': m, 'stream': 'random'}
 
 
 def make_regen(impl, rng, lcf):
